@@ -558,6 +558,7 @@ func (t *handshakeTransport) sendKexInit() error {
 
 	}
 
+	msg.KexAlgos = verifFilterKexAlgos(t.config, msg.KexAlgos)
 	packet := Marshal(msg)
 
 	// writePacket destroys the contents, so save a copy.
